@@ -478,6 +478,32 @@ func attackWorldC09(c *Ctx, rw *refWorld, seed uint64) {
 						c.Violate("C09/reinit-envelope-naming-existing-round-overwrites-it", fmt.Sprintf("an unauthenticated reinit_dkg message whose envelope names existing round %s and whose payload names a fresh id changed %v on %s", trunc(g.DkgRoundID, 8), pd, nd.Name), map[string]interface{}{"world": rw.Name, "node": nd.Name, "state": stateName})
 					}
 				}
+				// third channel: a reinitialisation message aimed at the existing round itself (envelope and payload
+				// name it), carrying a stranger's keys for every participant and a forged contribution: the node
+				// already has that round, nothing of it may change
+				if i <= 1 {
+					re3 := types.ReDKG{DKGID: g.DkgRoundID, Threshold: 2, Messages: []storage.Message{mu.Msg}}
+					if i == 1 {
+						re3.Messages = nil
+					}
+					for _, p := range w.Nodes {
+						re3.Participants = append(re3.Participants, types.Participant{Name: p.Name, NewCommPubKey: fakeKey("stranger", 0)[:32], OldCommPubKey: p.KeyPair.Pub, DKGPubKey: fakeKey("dkg", p.Idx)})
+					}
+					bz3, _ := json.Marshal(re3)
+					wrap3 := storage.Message{ID: "wrap3", DkgRoundID: g.DkgRoundID, Event: EvReinit, Data: bz3, SenderAddr: "stranger", Signature: []byte("none")}
+					nd.Mem.Restore(m.Snaps[v])
+					func() {
+						defer func() { _ = recover() }()
+						_ = nd.Svc.ProcessMessage(wrap3)
+					}()
+					after3 := nd.Mem.Snapshot()
+					w.Board.Truncate(len(all))
+					c.Eval(1)
+					c.Distinct(fmt.Sprintf("%s|reinit-of-existing-round|%s|%s|%d", rw.Name, g.Event, stateName, i))
+					if pd := protectedDiff(before, after3, ""); len(pd) > 0 {
+						c.Violate("C09/reinit-message-for-an-existing-round-changed-it", fmt.Sprintf("an unauthenticated reinit_dkg message for round %s, which %s already holds (in %s), changed %v", trunc(g.DkgRoundID, 8), nd.Name, stateName, pd), map[string]interface{}{"world": rw.Name, "node": nd.Name, "state": stateName, "embedded": mu.Label})
+					}
+				}
 				// the verification switch must be back off afterwards
 				if chk, ok := nd.Svc.(interface{ GetSkipCommKeysVerification() bool }); ok && chk.GetSkipCommKeysVerification() {
 					c.Violate("C09/verification-left-switched-off-after-reinit", nd.Name, nil)
